@@ -8,3 +8,8 @@ Open Scope string_scope.
 Definition baseline : list string :=
   ["acc"; "bank"; "staking"; "mint"; "distribution"; "slashing"; "gov"; "params"; "ibc"; "upgrade"; "evidence";
    "transfer"; "capability"; "aol"; "did"; "burn"; "token"; "wasm"].
+
+(** the consensus versions the custom modules had in the releases this binary upgrades from: the version map a chain has
+    recorded when the plan of this release reaches its height.  RunMigrations halts the chain when a module's version in the
+    binary is above the recorded one and no migration is registered for the step; none is registered in this release. *)
+Definition baseline_custom_versions : list (string * nat) := [("aol", 1); ("burn", 1); ("did", 1); ("pnft", 1)].
